@@ -197,7 +197,7 @@ pub fn is_valid_path(path: &str) -> bool {
                 separators = 0;
             }
             // The middle of an identifier
-            c if is_xid_continue(c) => (),
+            c if separators == 0 && is_xid_continue(c) => (),
             // An invalid character
             _ => return false,
         }
